@@ -36,10 +36,11 @@ type rec struct {
 }
 
 type result struct {
-	Label string
-	Tag   int // 1-based issue order of the command (its tag is T<Tag>); 0 = not a tagged command
-	Err   string
-	OK    bool
+	Label    string
+	Tag      int // 1-based issue order of the command (its tag is T<Tag>); 0 = not a tagged command
+	Err      string
+	OK       bool
+	MustFail bool // the transcript never carries this command's completion: success is a violation
 }
 
 func (r *rec) done(label string, tag int, err error) {
@@ -53,10 +54,19 @@ func (r *rec) done(label string, tag int, err error) {
 	r.results = append(r.results, res)
 }
 
+// mustFail records a command whose tagged completion does not exist in the transcript at all.
+func (r *rec) mustFail(label string, err error) {
+	r.done(label, 0, err)
+	r.results[len(r.results)-1].MustFail = true
+}
+
 type transcript struct {
 	name   string
 	steps  []step
 	caller func(c *imapclient.Client, r *rec)
+	// closeAfter: the server closes the connection right after its last step (the transcript leaves
+	// a command unanswered on purpose)
+	closeAfter bool
 }
 
 const greetPlus = "* OK [CAPABILITY IMAP4rev1 LITERAL+ SASL-IR IDLE NAMESPACE MOVE ENABLE UIDPLUS ESEARCH IMAP4rev2 LIST-STATUS] ready\r\n"
@@ -85,7 +95,7 @@ func readAllItems(msg *imapclient.FetchMessageData) {
 func corpus() []transcript {
 	var ts []transcript
 	add := func(name string, steps []step, caller func(c *imapclient.Client, r *rec)) {
-		ts = append(ts, transcript{name, steps, caller})
+		ts = append(ts, transcript{name: name, steps: steps, caller: caller, closeAfter: strings.Contains(name, "-with-pending-")})
 	}
 	add("greeting", []step{{0, greetPlain}}, func(c *imapclient.Client, r *rec) {
 		r.done("WaitGreeting", 0, c.WaitGreeting())
@@ -278,6 +288,22 @@ func corpus() []transcript {
 	add("logout", []step{{0, preauth}, {1, "* BYE bye\r\nT1 OK done\r\n"}}, func(c *imapclient.Client, r *rec) {
 		r.done("Logout", 1, c.Logout().Wait())
 	})
+	// pipelined behind LOGOUT: the server says BYE, completes LOGOUT and closes; the second command
+	// never gets a completion and must fail, whatever the state of the connection
+	add("logout-with-pending-select", []step{{0, preauth}, {2, "* BYE bye\r\nT1 OK done\r\n"}}, func(c *imapclient.Client, r *rec) {
+		lo := c.Logout()
+		sel := c.Select("INBOX", nil)
+		r.done("Logout", 1, lo.Wait())
+		_, err := sel.Wait()
+		r.mustFail("Select", err)
+	})
+	add("noop-with-pending-fetch", []step{{0, preauth}, {2, "T1 OK done\r\n* 1 FETCH (FLAGS ())\r\n"}}, func(c *imapclient.Client, r *rec) {
+		n := c.Noop()
+		f := c.Fetch(imap.SeqSetNum(1), &imap.FetchOptions{Flags: true})
+		r.done("Noop", 1, n.Wait())
+		_, err := f.Collect()
+		r.mustFail("Fetch", err)
+	})
 	add("create-delete-rename", []step{{0, preauth}, {1, "T1 OK a\r\n"}, {2, "T2 NO b\r\n"}, {3, "T3 OK c\r\n"}}, func(c *imapclient.Client, r *rec) {
 		r.done("Create", 1, c.Create("a", nil).Wait())
 		c.Delete("b").Wait()
@@ -377,7 +403,9 @@ func build(t *transcript, f fault) *vx.Scenario {
 				switch f.Kind {
 				case "none", "write-error":
 					// a well-behaved server closes after the transcript once the client is done
-					vsched.WaitUntil("server waits for caller", func() bool { return callerDone || cEnd.Closed() })
+					if !t.closeAfter {
+						vsched.WaitUntil("server waits for caller", func() bool { return callerDone || cEnd.Closed() })
+					}
 					cEnd.InjectEOF()
 				case "eof":
 					cEnd.InjectEOF()
@@ -423,6 +451,11 @@ func build(t *transcript, f fault) *vx.Scenario {
 			o, ok := obs.(observation)
 			if !ok {
 				return "no-observation:" + t.name, ""
+			}
+			for _, x := range o.Results {
+				if x.MustFail && x.OK {
+					return "success-without-completion:" + t.name + ":" + x.Label, fmt.Sprintf("command %s reported success although the server never sent its completion", x.Label)
+				}
 			}
 			if f.Kind == "write-error" || f.Kind == "none" {
 				if f.Kind == "none" {
@@ -521,11 +554,36 @@ func main() {
 		run.AddEvals(1)
 		run.Finish()
 	}
+	// second pass (delay bounding, which reaches windows between a write and the next lock that
+	// preemption bound 0 cannot): the fault-free run and EOF at every line boundary of every transcript
+	var deep []scenarioID
+	for ti := range ts {
+		total, _ := stream(&ts[ti])
+		deep = append(deep, scenarioID{ti, fault{"none", 0}})
+		for k := 0; k < len(total); k++ {
+			if k > 0 && total[k-1] == '\n' {
+				deep = append(deep, scenarioID{ti, fault{"eof", k}})
+			}
+		}
+	}
+	dbound := 1
+	if run.Thorough() {
+		dbound = 2
+	}
+	nFirst := len(ids)
+	ids = append(ids, deep...)
 	results := vx.Sharded(len(ids), func(i int) vx.ItemResult {
 		id := ids[i]
 		sc := build(&ts[id.T], id.Fault)
+		if i >= nFirst {
+			r := vx.ExploreItem(sc, dbound, vx.Config{MaxExec: maxExec * 10, Delay: true})
+			r.Name = "delay:" + r.Name
+			return r
+		}
 		return vx.ExploreItem(sc, bound, vx.Config{MaxExec: maxExec})
 	})
+	run.Set("delay_pass_scenarios", int64(len(deep)))
+	run.Set("delay_pass_bound", int64(dbound))
 	exhaustive := true
 	outcomes := map[string]bool{}
 	var capped int64
@@ -541,7 +599,7 @@ func main() {
 			capped++
 		}
 		for o := range r.Outcomes {
-			outcomes[r.Name[:strings.Index(r.Name, "/")]+"|"+o] = true
+			outcomes[strings.TrimPrefix(r.Name, "delay:")[:strings.Index(strings.TrimPrefix(r.Name, "delay:"), "/")]+"|"+o] = true
 		}
 		for _, f := range r.Failures {
 			id := ids[i]
